@@ -894,7 +894,7 @@ func findWoobOfL2(call *ssa.Call) ssa.Value {
 
 // ruleAddrL2 checks the frame built by sendEthernet.
 func ruleAddrL2(c *Ctx, rule string) {
-	fn := c.P.Func("server", "", "sendEthernet")
+	fn := c.P.Anchor("sendEthernet")
 	if fn == nil {
 		c.R.Fatalf("ANCHOR-UNRESOLVED: server.sendEthernet")
 		return
@@ -975,7 +975,7 @@ func ruleAddrL2(c *Ctx, rule string) {
 // interface information.
 func ruleAddrListener(c *Ctx, rule string) {
 	for _, name := range []string{"listen4", "listen6"} {
-		fn := c.P.Func("server", "", name)
+		fn := c.P.Anchor(name)
 		if fn == nil {
 			c.R.Fatalf("ANCHOR-UNRESOLVED: server.%s", name)
 			continue
